@@ -37,11 +37,16 @@ Br(nodes, x) == LET c == ClampTo(nodes, x)
                 IN  IF c = nodes[r] THEN {r} ELSE IF c = nodes[l] THEN {l} ELSE {l, r}
 
 \* ----------------------------------------------------------------- regions
-Region(TN, PN, x, y) ==
-    LET pmax == y >= NLast(PN)
-        tmax == x >= NLast(TN)
-        pmin == y < NFirst(PN)
-        tmin == x < NFirst(TN)
+\* The dispatch is EXACT: a query one lattice unit (however fine the lattice: the coordinates may be scaled,
+\* see MC_InterpEdge.tla) below the first node is below the grid, one unit below the last node is inside the
+\* last cell.  RegionT is the dispatch with comparison tolerances tx, ty; the specification is RegionT with
+\* zero tolerances.  A positive tolerance is NOT a refinement: MC_InterpEdge's expected-counterexample config
+\* shows that it extrapolates (BracketBounded fails a hair outside an edge).
+RegionT(TN, PN, x, y, tx, ty) ==
+    LET pmax == y >= NLast(PN) - ty
+        tmax == x >= NLast(TN) - tx
+        pmin == y < NFirst(PN) - ty
+        tmin == x < NFirst(TN) - tx
     IN  IF pmax /\ tmax THEN "last"
         ELSE IF pmin /\ tmin THEN "zero"
         ELSE IF pmax /\ tmin THEN "corner_pmax_tmin"
@@ -51,16 +56,20 @@ Region(TN, PN, x, y) ==
         ELSE IF pmin THEN "tonly_firstp"
         ELSE IF tmin THEN "ponly_firstt"
         ELSE "interior"
+Region(TN, PN, x, y) == RegionT(TN, PN, x, y, 0, 0)
 
 Inside(TN, PN, x, y) == x >= NFirst(TN) /\ x <= NLast(TN) /\ y >= NFirst(PN) /\ y <= NLast(PN)
 
 \* ------------------------------------------------------------- linear mode
-ExpectedLin(TN, PN, tab, x, y) ==
+\* (the region is a parameter so that the tolerant dispatch can be evaluated as an expected counterexample;
+\*  pfirst chooses the order of the two one-dimensional interpolations inside a cell: the bilinear form does not
+\*  depend on it -- invariant BilinearOrderIrrelevant of MC_Interp -- but the intermediate fractions do, and the
+\*  fine-lattice configs of MC_InterpEdge interpolate first in the variable that is on the coarse lattice)
+ExpectedLinRO(TN, PN, tab, x, y, reg, pfirst) ==
     LET nt == Len(TN)  np == Len(PN)
         tl == LeftIdx(TN, x)  tr == RightIdx(TN, x)
         pl == LeftIdx(PN, y)  pr == RightIdx(PN, y)
         V(p, t) == Q(tab[p][t])
-        reg == Region(TN, PN, x, y)
     IN  CASE reg = "last"             -> V(np, nt)
           [] reg = "zero"             -> Q(0)
           [] reg = "corner_pmax_tmin" -> V(np, 1)
@@ -69,18 +78,26 @@ ExpectedLin(TN, PN, tab, x, y) ==
           [] reg = "ponly_lastt"      -> RLin(V(pl, nt), V(pr, nt), y, PN[pl], PN[pr])
           [] reg = "tonly_firstp"     -> RLin(V(1, tl), V(1, tr), x, TN[tl], TN[tr])
           [] reg = "ponly_firstt"     -> RLin(V(pl, 1), V(pr, 1), y, PN[pl], PN[pr])
-          [] OTHER -> RLin(RLin(V(pl, tl), V(pl, tr), x, TN[tl], TN[tr]),
-                           RLin(V(pr, tl), V(pr, tr), x, TN[tl], TN[tr]), y, PN[pl], PN[pr])
+          [] OTHER -> IF pfirst
+                      THEN RLin(RLin(V(pl, tl), V(pr, tl), y, PN[pl], PN[pr]),
+                                RLin(V(pl, tr), V(pr, tr), y, PN[pl], PN[pr]), x, TN[tl], TN[tr])
+                      ELSE RLin(RLin(V(pl, tl), V(pl, tr), x, TN[tl], TN[tr]),
+                                RLin(V(pr, tl), V(pr, tr), x, TN[tl], TN[tr]), y, PN[pl], PN[pr])
+ExpectedLinR(TN, PN, tab, x, y, reg) == ExpectedLinRO(TN, PN, tab, x, y, reg, FALSE)
+
+ExpectedLin(TN, PN, tab, x, y) == ExpectedLinR(TN, PN, tab, x, y, Region(TN, PN, x, y))
 
 \* ---------------------------------------------------------------- exp mode
 \* weight of the upper temperature node in the geometric mean
-ExpW(T, Tmin, Tmax) == Norm(Tmax * (T - Tmin), T * (Tmax - Tmin))
-ExpectedExp(TN, PN, tab, x, y) ==
+\* = Tmax (T - Tmin) / (T (Tmax - Tmin)), multiplied with cross-reduction so that temperatures on a fine
+\* lattice (milli-kelvin coordinates) do not overflow TLC's 32-bit integers before the fraction is reduced
+RMulX(a, b) == RMul(Norm(a[1], b[2]), Norm(b[1], a[2]))
+ExpW(T, Tmin, Tmax) == RMulX(Norm(Tmax, Tmax - Tmin), Norm(T - Tmin, T))
+ExpectedExpR(TN, PN, tab, x, y, reg) ==
     LET nt == Len(TN)  np == Len(PN)
         tl == LeftIdx(TN, x)  tr == RightIdx(TN, x)
         pl == LeftIdx(PN, y)  pr == RightIdx(PN, y)
         V(p, t) == Q(tab[p][t])
-        reg == Region(TN, PN, x, y)
         w  == ExpW(x, TN[tl], TN[tr])
         Same(v) == <<v, v, Q(0)>>
     IN  CASE reg = "last"             -> Same(V(np, nt))
@@ -93,6 +110,8 @@ ExpectedExp(TN, PN, tab, x, y) ==
           [] reg = "ponly_firstt"     -> Same(RLin(V(pl, 1), V(pr, 1), y, PN[pl], PN[pr]))
           [] OTHER -> <<RLin(V(pl, tl), V(pr, tl), y, PN[pl], PN[pr]),
                         RLin(V(pl, tr), V(pr, tr), y, PN[pl], PN[pr]), w>>
+
+ExpectedExp(TN, PN, tab, x, y) == ExpectedExpR(TN, PN, tab, x, y, Region(TN, PN, x, y))
 
 \* ---------------------------------------------------- hull of bracketing nodes
 HullVals(TN, PN, tab, x, y) == {tab[p][t] : p \in Br(PN, y), t \in Br(TN, x)}
